@@ -15,6 +15,7 @@ import (
 	"sort"
 	"strconv"
 	"strings"
+	"sync"
 	"sync/atomic"
 	"time"
 
@@ -141,6 +142,7 @@ type Server struct {
 	Info         *system.Info         // values about the server commonly known as $SYS topics
 	loop         *loop                // loop contains tickers for the system event loop
 	done         chan bool            // indicate that the server is ending
+	closing      sync.RWMutex         // orders the start of connection handlers with the closing of done
 	Log          *slog.Logger         // minimal no-alloc logger
 	hooks        *Hooks               // hooks contains hooks for extra functionality such as auth and persistent storage
 	inlineClient *Client              // inlineClient is a special client used for inline subscriptions and inline Publish
@@ -405,8 +407,17 @@ func (s *Server) EstablishConnection(listener string, c net.Conn) error {
 // to the server, performs session housekeeping, and reads incoming packets.
 func (s *Server) attachClient(cl *Client, listener string) error {
 	verifPoint("attach.handler_start", "")
-	defer s.Listeners.ClientsWg.Done()
+	s.closing.RLock() // Close waits for the handlers counted here; none may be added once it has begun
+	select {
+	case <-s.done:
+		s.closing.RUnlock()
+		cl.Stop(packets.ErrServerShuttingDown)
+		return packets.ErrServerShuttingDown
+	default:
+	}
 	s.Listeners.ClientsWg.Add(1)
+	s.closing.RUnlock()
+	defer s.Listeners.ClientsWg.Done()
 
 	go cl.WriteLoop()
 	defer cl.Stop(nil)
@@ -1569,7 +1580,9 @@ func (s *Server) publishSysTopics() {
 
 // Close attempts to gracefully shut down the server, all listeners, clients, and stores.
 func (s *Server) Close() error {
+	s.closing.Lock()
 	close(s.done)
+	s.closing.Unlock()
 	s.Log.Info("gracefully stopping server")
 	s.Listeners.CloseAll(s.closeListenerClients)
 	s.hooks.OnStopped()
